@@ -25,7 +25,7 @@ Definition y_srv : server :=
   mkServer (Did true (did_string (x_did 9))) x_ctx
            [mkHandler (bs "store/add") (std_desc (bs "store/add")) (fun _ => HOk)].
 
-Definition y_serve := serve_bytes y_digest (fun _ => None) x_keys x_valid x_alg 8 y_srv [].
+Definition y_serve := serve_bytes y_digest (fun _ => None) 8 y_srv [] (view_block lid x_keys x_valid x_alg).
 
 
 Example y_hyps :
@@ -73,11 +73,11 @@ Example y_chain :
   exists cid data ut h a,
     In cid (invocations_bytes (d_msg d)) /\ tbl_get (d_store d) cid = Some data /\
     token_decode_typed data = Some ut /\
-    P (U_of x_keys x_valid x_alg [] (blocks_of d)) x_ctx 8 (h_desc h)
+    P (U_of [] (view_block lid x_keys x_valid x_alg) (blocks_of d)) x_ctx 8 (h_desc h)
       [mkDlg (lid cid) (vis_of (blocks_of d))] a.
 Proof.
   destruct y_served as [rep H].
-  destruct (serve_bytes_calls_have_valid_chains y_digest (fun _ => None) x_keys x_valid x_alg 8 y_srv [] y_body rep _
+  destruct (serve_bytes_calls_have_valid_chains y_digest (fun _ => None) x_keys x_valid x_alg 8 y_srv [] _ (fun b => eq_refl) y_body rep _
               y_res H) as [d [D K]].
   exists d. split; [exact D|].
   destruct (K _ (or_introl eq_refl)) as (cid & data & ut & h & a & c & H1 & H2 & H3 & _ & _ & _ & H4 & _).
